@@ -428,6 +428,25 @@ def run(ctx):
         if any(prog.resolve_call(mk, c) is sr for c in n.calls()):
             r.check(known_truthy(fm[n.id], "self.proto"), "%s#write-only-when-connected" % mk.qname,
                     "makeRequest writes without a live connection", where(mk, n.stmt))
+    # ... and with a live connection it always writes: beyond the tests that decide whether the request is accepted at all,
+    # only the connection test stands between an accepted request and the wire (nothing else will send it later: the queue
+    # sender runs once per connection)
+    ins_ = [n for n in cm.nodes if n.kind == "stmt" and isinstance(n.stmt, ast.Assign) and any(
+        isinstance(t, ast.Subscript) and norm(t.value) == "self.requests" for t in n.stmt.targets)]
+    wr_ = [n for n in cm.nodes if any(prog.resolve_call(mk, c) is sr for c in n.calls())]
+    if ins_ and wr_:
+        base_ = {(t.id, lab) for t, lab in cm.control_deps_transitive(ins_[0].id)}
+        extra_ = []
+        for w_ in wr_:
+            for t, lab in cm.control_deps_transitive(w_.id):
+                if (t.id, lab) in base_ or t.kind != "test":
+                    continue
+                txt_ = norm(at(ctx, mk, t.id, t.stmt.test))
+                if txt_ not in ("self.proto", "self.proto is not None", "not self.proto", "self.proto is None", "bool(self.proto)"):
+                    extra_.append("line %d: %s" % (t.stmt.lineno, txt_))
+        r.check(not extra_, "%s#connected-means-written" % mk.qname, "with a live connection an accepted request is written only if also %s" % extra_,
+                where(mk, wr_[0].stmt), "a request issued from the callback of a no-reply request while the queue is flushed to a new connection "
+                "stays in the table unsent on a live connection: it never completes")
 
 
 MUTANTS = [
